@@ -70,6 +70,30 @@ func (r *FnRun) call(st *State, b *ssa.BasicBlock, idx int, x *ssa.Call) (Val, b
 			return r.inlineCall(st, b, idx, x, callee, args, site)
 		}
 	}
+	if c, ok := r.E.Contracts[name]; ok && c.Opts["once"] == "yes" {
+		// Once.Do(f): f has run (now or earlier). Everything f writes is havocked and,
+		// for package-level map variables that f initialises with make, known non-nil.
+		r.E.Trusted["contract: "+c.Key+" (pthread once: the initialiser has run before Do returns)"] = true
+		r.havocAll(st)
+		if len(args) >= 2 {
+			if fr, ok := args[1].(*FuncRef); ok {
+				for _, b := range fr.Fn.Blocks {
+					for _, ins := range b.Instrs {
+						if sto, ok := ins.(*ssa.Store); ok {
+							if g, ok := sto.Addr.(*ssa.Global); ok {
+								if _, isMk := sto.Val.(*ssa.MakeMap); isMk {
+									ga := r.globalAddr(st, g).(Term)
+									mp := r.loadAt(st, ga, sto.Val.Type()).(Term)
+									st.assume(Not(Eq(mp, BVInt(0, PtrW, false))), "initialised by "+fr.Fn.Name())
+								}
+							}
+						}
+					}
+				}
+			}
+		}
+		return BVInt(0, 32, true), false
+	}
 	if c, ok := r.E.Contracts[name]; ok {
 		var extra map[string]Val
 		if cv, isC := r.operand(st, cc.Value).(*ClosureVal); isC {
